@@ -10,6 +10,8 @@ This is what correlates `if let Some(r) = clipbox {push}` ... `if clipbox.is_som
 `result?` after a call whose Ok/Err outcome was forked.  No value is ever computed from
 program input: only enum discriminants and booleans derived from them are tracked.
 """
+import re
+
 from .mir import Term, op_place, op_local, op_const, place_key
 
 STD_ENUMS = ("core::option::Option", "core::result::Result", "core::ops::control_flow::ControlFlow")
@@ -158,6 +160,22 @@ class Explorer:
                 elif self.trackable(src):
                     env.links[dl] = ("branch", src, is_res)
             return
+        # variant-preserving / variant-mapping std combinators
+        vp = None
+        if re.search(r"^core::result::Result::<T, E>::(map_err|map|as_ref|as_mut|copied|cloned|inspect|inspect_err)$", callee) or \
+                re.search(r"^core::option::Option::<T>::(map|as_ref|as_mut|copied|cloned|inspect)$", callee) or \
+                re.search(r"^core::option::Option::<&T>::(copied|cloned)$", callee):
+            vp = "same"
+        elif re.search(r"^core::option::Option::<T>::(ok_or|ok_or_else)$", callee) or callee == "core::result::Result::<T, E>::ok":
+            vp = "flip"
+        if vp and d["args"]:
+            src = op_local(d["args"][0])
+            if src is not None:
+                if src in env.vals:
+                    env.vals[dl] = env.vals[src] if vp == "same" else 1 - env.vals[src]
+                elif self.trackable(src):
+                    env.links[dl] = ("map", src, vp == "same")
+            return
         if callee.endswith("::from_residual") and "FromResidual" in callee:
             dty = d["dty"]
             if dty.startswith("core::result::Result<"):
@@ -216,6 +234,13 @@ class Explorer:
         elif kind == "branch":
             _, src, is_res = link
             env.vals[src] = val if is_res else 1 - val
+            if src in env.links:
+                self._learn(env, src, env.links.get(src), env.vals[src])
+        elif kind == "map":
+            _, src, same = link
+            env.vals[src] = val if same else 1 - val
+            if src in env.links:
+                self._learn(env, src, env.links.get(src), env.vals[src])
 
     def _binary_enum(self, l):
         ty = self.body.local_ty(l)
